@@ -5,6 +5,10 @@ Model of glyph metric lookup with variation deltas:
 -/
 import FontVerif.Model.Base
 import FontVerif.Model.Fixed
+import FontVerif.Model.Ieee
+import FontVerif.Model.IeeeArith
+import FontVerif.Model.FixedConv
+import FontVerif.Model.Tent
 namespace FontVerif.Metrics
 open FontVerif
 
@@ -43,5 +47,212 @@ def lsbUnits (glyphCount : Nat) (hMetrics : List (Int × Int)) (lsbs : List Int)
 /-- `FixedScaleFactor::apply(value)`: `scale.mul_div(Fixed(value), Fixed(64))` as 16.16 bits
 (the `to_f32` of the result is not modelled). -/
 def applyScale (scale value : Int) : Int := Fixed.mulDiv scale value 64
+
+/-! ### scaled sizes (`Size::fixed_linear_scale`, `FixedScaleFactor::apply` incl. the `to_f32`) -/
+
+/-- `Size::fixed_linear_scale(units_per_em)`; `ppem = none` is `Size::unscaled()`.
+```
+Some(ppem) if units_per_em > 0 => Fixed::from_bits((ppem * 64.) as i32) / Fixed::from_bits(units_per_em as i32),
+_ => Fixed::from_bits(0x10000 * 64)
+``` -/
+def fixedLinearScale (ppem : Option Ieee.FVal) (upem : Nat) : Int :=
+  match ppem with
+  | some p =>
+    if upem > 0 then
+      Fixed.div (Ieee.toIntSat (-2147483648) 2147483647 (Ieee.mul Ieee.f32 p (.fin false 1 6))) upem
+    else 4194304
+  | none => 4194304
+
+/-- `FixedScaleFactor::apply(value)` in full: `scale.mul_div(Fixed(value), Fixed(64)).to_f32()`
+(`Fixed::to_f32` = `bits as f32 * (1.0 / 65536.0)`: rounds to 24 significant bits). -/
+def applyScaleF32 (scale value : Int) : Ieee.FVal :=
+  FixedConv.toF32Lossy 16 (applyScale scale value)
+
+/-! ### gvar fallback (`GlyphMetrics::metric_deltas_from_gvar`, `Gvar::phantom_point_deltas`) -/
+
+/-- a glyph as `find_glyph_and_point_count` sees it. -/
+inductive GlyphKind where
+  | empty
+  | simple (numPoints : Nat)
+  /-- components: `(glyph id, USE_MY_METRICS)` -/
+  | composite (components : List (Nat × Bool))
+  /-- `loca.get_glyf` failed -/
+  | unreadable
+  deriving Repr
+
+/-- `find_glyph_and_point_count(glyf, loca, glyph_id, recurse_depth)`: the glyph whose phantom points
+drive the metrics and the index where they start.  `fuel` ≥ 66 − depth suffices (the recursion
+stops with an error beyond depth 64). -/
+def findGlyphAndPointCount (glyphs : List GlyphKind) : Nat → Nat → Nat → Option (Nat × Nat)
+  | 0, _, _ => none
+  | fuel + 1, gid, depth =>
+    if depth > 64 then none else
+    match glyphs[gid]? with
+    | none => none                      -- `loca.get_glyf` out of range ⇒ error
+    | some .unreadable => none
+    | some .empty => some (gid, 0)
+    | some (.simple n) => some (gid, n)
+    | some (.composite comps) =>
+      -- first component with USE_MY_METRICS, else the composite itself with the component count
+      match comps.find? (fun c => c.2) with
+      | some c => findGlyphAndPointCount glyphs fuel c.1 (depth + 1)
+      | none => some (gid, comps.length)
+
+/-- one active tuple: its scalar (`Fixed`) and the `(position, x_delta)` of its deltas. -/
+abbrev TupleX := Int × List (Nat × Int)
+
+/-- the `x` of `phantom_deltas[k]` after the loop of `phantom_point_deltas`:
+`phantom_deltas[ix - start] += tuple_delta.apply_scalar(scalar)` for every delta whose position is
+`start + k` (`apply_scalar` = `Fixed::from_i32(x_delta) * scalar`, `+=` wrapping). -/
+def phantomX (tuples : List TupleX) (start k : Nat) : Int :=
+  tuples.foldl (fun acc t =>
+    t.2.foldl (fun acc d =>
+      if d.1 = start + k then Tent.fadd acc (Fixed.mul (Fixed.fromI32 d.2) t.1) else acc) acc) 0
+
+/-- `metric_deltas_from_gvar`: `deltas[1] -= deltas[0]; [deltas[0], deltas[1]].map(|d| d.x.to_i32())`
+= `[lsb delta, advance delta]`. -/
+def gvarMetricDeltas (p0 p1 : Int) : Int × Int :=
+  (Fixed.toI32 p0, Fixed.toI32 (Tent.fsub p1 p0))
+
+/-- where the variation delta of a metric comes from. -/
+inductive DeltaSrc where
+  /-- HVAR present: `Some(delta)` if `advance_width_delta` / `lsb_delta` returned `Ok` -/
+  | hvar (d : Option Int)
+  /-- no HVAR, gvar present: phantom `x` deltas of points 0 and 1 if `phantom_point_deltas` gave some -/
+  | gvar (ph : Option (Int × Int))
+  | none
+  deriving Repr
+
+/-- the amount added to the advance. -/
+def advanceDeltaOf : DeltaSrc → Int
+  | .hvar (some d) => deltaInt d
+  | .gvar (some p) => (gvarMetricDeltas p.1 p.2).2
+  | _ => 0
+
+/-- the amount added to the left side bearing. -/
+def lsbDeltaOf : DeltaSrc → Int
+  | .hvar (some d) => deltaInt d
+  | .gvar (some p) => (gvarMetricDeltas p.1 p.2).1
+  | _ => 0
+
+/-- `GlyphMetrics::advance_width(gid)` in full: lookup, variation delta, scale, `to_f32`. -/
+def advanceWidth (scale : Int) (glyphCount : Nat) (hMetrics : List (Int × Int)) (gid : Nat)
+    (src : DeltaSrc) : Option Ieee.FVal :=
+  if gid ≥ glyphCount then none else
+  some (applyScaleF32 scale (baseAdvance hMetrics gid + advanceDeltaOf src))
+
+/-- `GlyphMetrics::left_side_bearing(gid)` in full. -/
+def leftSideBearing (scale : Int) (glyphCount : Nat) (hMetrics : List (Int × Int)) (lsbs : List Int)
+    (gid : Nat) (src : DeltaSrc) : Option Ieee.FVal :=
+  if gid ≥ glyphCount then none else
+  some (applyScaleF32 scale (baseLsb hMetrics lsbs gid + lsbDeltaOf src))
+
+/-! ### HVAR / VVAR delta lookup (read-fonts variations.rs `advance_delta`, `item_delta`), MVAR -/
+
+/-- result of the delta functions: `Fixed` bits or an error. -/
+inductive FixedResult where
+  | ok (bits : Int)
+  | err
+  deriving Repr, DecidableEq
+
+/-- a compiled `DeltaSetIndexMap` as the reader sees it: `(entry_format, map_count, map_data)`. -/
+abbrev Dsim := Nat × Nat × List Nat
+
+abbrev Store := List (List (Int × Int × Int)) × List (Option Tent.SubTable)
+
+def fromDelta : Tent.DeltaResult → FixedResult
+  | .ok v => .ok (Fixed.fromI32 v)
+  | .err => .err
+
+/-- `variations::advance_delta(dsim, ivs, glyph_id, coords)` — `Hvar::advance_width_delta`,
+`Vvar::advance_height_delta`: without a map the index is `(0, gid as u16)`. `store = none`: the
+store offset does not resolve. -/
+def advanceDelta (dsim : Option Dsim) (store : Option Store) (gid : Nat) (coords : List Int) :
+    FixedResult :=
+  if coords.isEmpty then .ok 0 else
+  let ix : Option (Nat × Nat) := match dsim with
+    | some (fmt, cnt, data) => Tent.dsimGet fmt cnt data gid
+    | none => some (Tent.implicitIndex gid)
+  match ix, store with
+  | some (o, i), some (regions, subs) => fromDelta (Tent.computeDelta regions subs o i coords)
+  | _, _ => .err
+
+/-- `variations::item_delta` — `Hvar::lsb_delta / rsb_delta`, `Vvar::tsb_delta / bsb_delta /
+v_org_delta`: no map ⇒ `Err(NullOffset)`. -/
+def itemDelta (dsim : Option Dsim) (store : Option Store) (gid : Nat) (coords : List Int) :
+    FixedResult :=
+  if coords.isEmpty then .ok 0 else
+  match dsim with
+  | none => .err
+  | some (fmt, cnt, data) =>
+    match Tent.dsimGet fmt cnt data gid, store with
+    | some (o, i), some (regions, subs) => fromDelta (Tent.computeDelta regions subs o i coords)
+    | _, _ => .err
+
+/-- the binary search of `Mvar::metric_delta` over `(value_tag, outer, inner)` records
+(`tag.cmp(&record.value_tag())` = comparison of the big-endian `u32`s):
+```
+while lo < hi { let i = (lo + hi) / 2; match tag.cmp(..) { Less => hi = i, Greater => lo = i + 1, Equal => return .. } }
+``` -/
+def mvarSearch (records : List (Nat × Nat × Nat)) (tag : Nat) : Nat → Nat → Nat → Option (Nat × Nat)
+  | 0, _, _ => none
+  | fuel + 1, lo, hi =>
+    if lo < hi then
+      let i := (lo + hi) / 2
+      match records[i]? with
+      | none => none
+      | some r =>
+        if tag < r.1 then mvarSearch records tag fuel lo i
+        else if tag > r.1 then mvarSearch records tag fuel (i + 1) hi
+        else some r.2
+    else none
+
+/-- `Mvar::metric_delta(tag, coords)`: `err` covers `MetricIsMissing`, `NullOffset` and read errors. -/
+def mvarMetricDelta (records : List (Nat × Nat × Nat)) (store : Option Store) (tag : Nat)
+    (coords : List Int) : FixedResult :=
+  match mvarSearch records tag (records.length + 1) 0 records.length with
+  | none => .err
+  | some (o, i) =>
+    match store with
+    | none => .err
+    | some (regions, subs) => fromDelta (Tent.computeDelta regions subs o i coords)
+
+/-! ### vertical metrics (read-fonts vmtx.rs / hmtx.rs `advance`, `side_bearing`; vorg.rs) -/
+
+/-- `hmtx::advance(metrics, gid)` (`Hmtx::advance`, `Vmtx::advance`):
+`metrics.get(gid).or_else(|| metrics.last()).map(advance)`. -/
+def longAdvance (metrics : List (Int × Int)) (gid : Nat) : Option Int :=
+  match metrics[gid]? with
+  | some m => some m.1
+  | none => metrics.getLast?.map (·.1)
+
+/-- `hmtx::side_bearing(metrics, side_bearings, gid)` (`Hmtx::side_bearing`, `Vmtx::side_bearing`). -/
+def longSideBearing (metrics : List (Int × Int)) (bearings : List Int) (gid : Nat) : Option Int :=
+  match metrics[gid]? with
+  | some m => some m.2
+  | none => bearings[gid - metrics.length]?
+
+/-- `Vorg::vertical_origin_y(gid)`: `binary_search_by` over `(glyph_index, vert_origin_y)` records
+(std's algorithm: `size = len; base = 0; while size > 1 { half = size/2; mid = base+half;
+base = if cmp(mid) == Greater { base } else { mid }; size -= half }` then compare at `base`),
+default when not found. -/
+def vorgSearch (records : List (Nat × Int)) (gid : Nat) : Nat → Nat → Nat → Nat
+  | 0, base, _ => base
+  | fuel + 1, base, size =>
+    if size > 1 then
+      let half := size / 2
+      let mid := base + half
+      let base' := match records[mid]? with
+        | some r => if r.1 > gid then base else mid
+        | none => base
+      vorgSearch records gid fuel base' (size - half)
+    else base
+
+def vorgY (default : Int) (records : List (Nat × Int)) (gid : Nat) : Int :=
+  if records.isEmpty then default else
+  let base := vorgSearch records gid records.length 0 records.length
+  match records[base]? with
+  | some r => if r.1 = gid then r.2 else default
+  | none => default
 
 end FontVerif.Metrics
